@@ -95,6 +95,7 @@ class Gen:
         self.uses = {}            # derived name -> identifiers used by its fields (transitively)
         self.legacy_users = set() # derived names with a #[ssz(with)] field
         self.union_names = set()
+        self.defns = []           # (rust format expression producing the defn s-expr, type name)
 
     def note(self, name, field_types, legacy=False, union=False):
         import re as _re
@@ -240,6 +241,12 @@ impl Model for {name} {{
            vals=", ".join("self.%s.to_model()" % f for f, _ in ser_fields),
            dvals=", ".join("self.%s.to_model_dec()" % f for f, _ in de_fields),
            gens=" ".join(gens), sym="true" if sym else "false"))
+        fdesc = []
+        for t, fl in fields:
+            nat = len([1 for k in ("skip_ser", "skip_de", "with") if k in fl])
+            fdesc.append('format!("(f {} %d %d %d %d)", <%s as Model>::ty())' % (
+                1 if "skip_ser" in fl else 0, 1 if "skip_de" in fl else 0, 1 if "with" in fl else 0, 1 if nat else 0, t.rust))
+        self.defns.append(('format!("(struct 0 container 1{}", vec![%s].iter().map(|p: &String| format!(" {}", p)).collect::<String>()) + ")"' % ", ".join(fdesc), name))
         has_default = False
         self.note(name, [t for t, _ in fields], legacy=any('with' in fl for _, fl in fields))
         return self.add(T(name, fixed, zero=zero, sym=sym, default=has_default,
@@ -284,6 +291,10 @@ impl Model for {name} {{
     fn max_slot() -> usize {{ std::cmp::max(std::mem::size_of::<Self>(), <{inner} as Model>::max_slot()) }}
 }}
 """.format(name=name, decl=decl, inner=inner.rust, live=live, ctor=ctor))
+        fdesc = []
+        for ty_s, sk in fields:
+            fdesc.append('format!("(f {} %d %d 0 %d)", <%s as Model>::ty())' % (1 if sk else 0, 1 if sk else 0, 1 if sk else 0, ty_s))
+        self.defns.append(('format!("(struct 0 transparent %d{}", vec![%s].iter().map(|p: &String| format!(" {}", p)).collect::<String>()) + ")"' % (0 if tuple_struct else 1, ", ".join(fdesc)), name))
         self.note(name, [inner])
         return self.add(T(name, inner.fixed, zero=inner.zero, sym=inner.sym, default=False, depth=inner.depth + 1))
 
@@ -338,6 +349,8 @@ impl Model for {name} {{
            garms=garms, n=len(variants),
            syms="".join(" && <%s as Model>::symmetric()" % t.rust for t in variants),
            slots=", ".join("<%s as Model>::max_slot()" % t.rust for t in variants)))
+        vdesc = ['format!("(v {})", <%s as Model>::ty())' % t.rust for t in variants]
+        self.defns.append(('format!("(enum 0 %s{}", vec![%s].iter().map(|p: &String| format!(" {}", p)).collect::<String>()) + ")"' % (behaviour, ", ".join(vdesc)), name))
         self.note(name, variants, union=(behaviour == 'union'))
         return self.add(T(name, False, sym=all(t.sym for t in variants), default=False,
                           depth=1 + max(t.depth for t in variants)))
@@ -371,6 +384,7 @@ impl Model for {name} {{
     }}
 }}
 """.format(name=name, decl=decl, n=n, arms=arms, garms=garms))
+        self.defns.append(('"(enum 0 tag%s)".to_string()' % (" (v)" * n), name))
         self.note(name, [])
         return self.add(T(name, True, default=False))
 
@@ -577,6 +591,10 @@ def main():
     body.append("\npub fn catalogue() -> Vec<TypeOps> {\n    vec![")
     for t in g.catalogue:
         body.append('        ops_of::<%s>("%s", "%s"),' % (t.rust, t.rust.replace('"', "'"), ",".join(sorted(tags_of(t, g)))))
+    body.append("    ]\n}\n")
+    body.append("pub fn derive_defs() -> Vec<(String, String, String)> {\n    vec![")
+    for expr, name in g.defns:
+        body.append("        (%s, <%s as Model>::ty(), <%s as Model>::dec_ty())," % (expr, name, name))
     body.append("    ]\n}\n")
     body.append("pub fn run_catalogue(ctx: &mut Ctx) {\n    for t in catalogue() {\n        run_type(ctx, &t);\n    }\n}\n")
     text = "\n".join(body)
